@@ -7,6 +7,8 @@ CONSTANTS
   InsertNewTagStoresChars = FALSE
   NonAtomicRead = FALSE
   NonAtomicQread = TRUE
+  ReverseViewCached = FALSE
+  AliasBoundToFirstObject = FALSE
   ShallowCopy = FALSE
   SrcSteps = 0
   Emit = FALSE
